@@ -16,7 +16,8 @@ LEVEL = "exploration"
 SHARDS = {"quick": 16, "thorough": 16}
 FLOOR = {"quick": 80, "thorough": 1500}
 REQUIRED_COUNTERS = ["triples_compared", "methods_compared", "mock_methods_called", "isinstance_checks",
-                     "docs_with_multi_tag", "docs_with_overloads", "docs_with_streaming"]
+                     "docs_with_multi_tag", "docs_with_overloads", "docs_with_streaming",
+                     "docs_with_streaming_non_primary_response"]
 RULE = ("documents with multi-tag operations, tag spelling variants, multi-content-type (overloaded) operations, streaming "
         "operations, many optional parameters; case = document; non-trivial = >=2 operations or >=2 tags or a multi-tag / "
         "overloaded / streaming operation")
@@ -108,7 +109,8 @@ def mk_doc(ctx: Ctx, allow: set[str]):
         return d
     d = specgen.generate(rng, allow=allow, prof={"ops": (2, 7), "p_param": 0.8, "p_stream": 0.25, "stream_kinds": ["sse", "binary"],
                                                  "p_multi_media": 0.0 if "multi_request_media" not in allow else 0.5,
-                                                 "opid_shapes": True, "ntags": 3})
+                                                 "opid_shapes": True, "ntags": 3,
+                                                 "p_errors": 0.6, "p_error_stream": 0.35})
     # tag spelling variants: rewrite some tags
     if rng.random() < 0.4:
         for path, item in d.doc["paths"].items():
@@ -145,6 +147,8 @@ def run_batch(ctx: Ctx, items: list[dict]) -> None:
             rec.count("docs_with_overloads")
         if d.features & {"stream_sse", "stream_binary"}:
             rec.count("docs_with_streaming")
+        if "streaming_error_response" in d.features:
+            rec.count("docs_with_streaming_non_primary_response")
         acc.append(it)
     if not acc:
         return
